@@ -180,4 +180,70 @@ theorem simFinish_in_bounds {N : Nat} {s : SimSt α} (h : SimOK N s) (hN : s.nac
     by rw [hz.ld]; omega, by rw [hz.rd]; omega⟩
 
 end sim
+/-! ### `esl_tree_Compare(T, T)` succeeds on every tree whose link tables agree -/
+
+section compare
+variable {α : Type}
+
+/-- the link tables of the tree agree: a taxon child names this node as its `taxaparent` (as `esl_tree_SetTaxaParents` computes
+    it), an internal child has a larger number (parents before children) and names this node as its `parent` -/
+def ChildOK (t : ETree α) (g : Nat) (c : Int) : Prop :=
+  (c ≤ 0 → (eTaxaParents t).getD (-c).toNat 0 = (g : Int)) ∧
+  (0 < c → g < c.toNat ∧ c.toNat < t.N - 1 ∧ t.parent.getD c.toNat 0 = (g : Int))
+
+def LinksAgree (t : ETree α) : Prop := ∀ g, g < t.N - 1 → ChildOK t g (t.l g) ∧ ChildOK t g (t.r g)
+
+/-- one node of the postorder pass of `esl_tree_Compare` (the body of `eCompare`'s fold) -/
+def cmpStep (t t2 : ETree α) (tp2 : Array Int) (acc : Option (Array Int)) (g : Nat) : Option (Array Int) :=
+  match acc with
+  | none => none
+  | some Mg =>
+    let a := if t.l g ≤ 0 then tp2.getD (-(t.l g)).toNat 0 else t2.parent.getD (Mg.getD (t.l g).toNat 0).toNat 0
+    let b := if t.r g ≤ 0 then tp2.getD (-(t.r g)).toNat 0 else t2.parent.getD (Mg.getD (t.r g).toNat 0).toNat 0
+    if a != b then none else some (Mg.setIfInBounds g a)
+
+theorem eCompare_eq (t t2 : ETree α) :
+    eCompare t t2 = ((List.range (t.N - 1)).reverse.foldl (cmpStep t t2 (eTaxaParents t2))
+      (some (Array.replicate (t.N - 1) 0))).isSome := rfl
+
+theorem cmp_child (t : ETree α) (g : Nat) (c : Int) (h : ChildOK t g c) (Mg : Array Int)
+    (hM : ∀ x, g < x → x < t.N - 1 → Mg.getD x 0 = (x : Int)) :
+    (if c ≤ 0 then (eTaxaParents t).getD (-c).toNat 0 else t.parent.getD (Mg.getD c.toNat 0).toNat 0) = (g : Int) := by
+  by_cases hc : c ≤ 0
+  · rw [if_pos hc]; exact h.1 hc
+  · rw [if_neg hc]
+    obtain ⟨h1, h2, h3⟩ := h.2 (by omega)
+    rw [hM _ h1 h2, Int.toNat_natCast]
+    exact h3
+
+theorem cmp_fold_self (t : ETree α) (h : LinksAgree t) (k : Nat) (hk : k ≤ t.N - 1) (Mg : Array Int)
+    (hsz : Mg.size = t.N - 1) (hM : ∀ x, k ≤ x → x < t.N - 1 → Mg.getD x 0 = (x : Int)) :
+    ((List.range k).reverse.foldl (cmpStep t t (eTaxaParents t)) (some Mg)).isSome = true := by
+  induction k generalizing Mg with
+  | zero => rfl
+  | succ k ih =>
+    rw [List.range_succ, List.reverse_append, List.reverse_singleton, List.singleton_append, List.foldl_cons]
+    obtain ⟨hl, hr⟩ := h k (by omega)
+    have ha := cmp_child t k (t.l k) hl Mg (fun x hx hx' => hM x (by omega) hx')
+    have hb := cmp_child t k (t.r k) hr Mg (fun x hx hx' => hM x (by omega) hx')
+    have hstep : cmpStep t t (eTaxaParents t) (some Mg) k = some (Mg.setIfInBounds k (k : Int)) := by
+      unfold cmpStep
+      simp only [ha, hb, bne_self_eq_false, Bool.false_eq_true, ↓reduceIte]
+    rw [hstep]
+    apply ih (by omega) _ (by simp [hsz])
+    intro x hx hx'
+    simp only [Array.getD_eq_getD_getElem?, Array.getElem?_setIfInBounds]
+    by_cases e : k = x
+    · subst e; simp [hsz, hx']
+    · have := hM x (by omega) hx'
+      simp only [Array.getD_eq_getD_getElem?] at this
+      simp [e, this]
+
+/-- `esl_tree_Compare(T, T) == eslOK` for every tree whose link tables agree -/
+theorem eCompare_self (t : ETree α) (h : LinksAgree t) : eCompare t t = true := by
+  rw [eCompare_eq]
+  exact cmp_fold_self t h (t.N - 1) (Nat.le_refl _) _ (by simp) (fun x hx hx' => absurd hx' (by omega))
+
+end compare
+
 end EaselModel.Weights
